@@ -136,11 +136,60 @@ struct CdHarness : HarnessBase {
 	void canon(std::string &out) { world_canon(out); out += std::to_string(one ? v1 : 0) + "," + std::to_string(many ? (int)n + 1 : 0); }
 };
 
+// An element whose destructor calls back into its owner, the way an idempotent close()/shutdown() does ("if the slot still
+// holds me, clear it").  std::unique_ptr::reset stores the new pointer before it destroys the old object, so during the
+// old object's destructor the owner no longer designates it and the call-back does nothing; an owner that destroys first
+// and re-points afterwards destroys the element a second time from inside its own destructor.  (Only reset() is driven this
+// way: calling into an owner whose own destructor is running is not something a program may do.)
+struct Closer : Tracked {
+	frg::unique_ptr<Closer, TrackAlloc> *owner = nullptr;
+	bool dying = false;
+	static inline bool armed = false;
+	Closer(int v, frg::unique_ptr<Closer, TrackAlloc> *o) : Tracked(v), owner(o) {}
+	~Closer() {
+		if(dying) { note("C16", "unique_ptr:element-destroyed-during-its-own-destruction", "reset() ran the destructor of an element whose destructor was already running (the owner still designated it)"); return; }
+		dying = true;
+		if(armed && owner && owner->get() == this) owner->reset(nullptr);
+	}
+};
+static InstResult reentrant_element() {
+	InstResult r; r.name = "unique_ptr-reentrant-element"; r.complete = true; r.fixpoint = true;
+	using U = frg::unique_ptr<Closer, TrackAlloc>;
+	auto bad = [&](const std::string &sig, const std::string &msg, const std::string &h) { r.add_violation({"C16", sig, msg}, h); };
+	for(int second = 0; second < 3; second++) for(int via = 0; via < 2; via++) {
+		std::string h = std::string(via ? "make_unique" : "ctor(alloc,ptr)") + ", reset(" + (second == 0 ? "nullptr" : second == 1 ? "new element" : "new element, then nullptr") + ") with an element that clears its owner from its destructor";
+		try {
+			world_reset(); pending().reset(); Closer::armed = false;
+			alignas(16) unsigned char store[sizeof(U)]; memset(store, 0xA5, sizeof store);
+			auto fresh = [&](int v) { TrackAlloc al{1}; return new(al.allocate(sizeof(Closer))) Closer(v, reinterpret_cast<U *>(store)); };
+			U *u = via ? new(store) U(frg::make_unique<Closer>(TrackAlloc{1}, 1, reinterpret_cast<U *>(store))) : new(store) U(TrackAlloc{1}, fresh(1));
+			Closer::armed = true;
+			if(second == 0) u->reset(nullptr);
+			else { Closer *n = fresh(2); u->reset(n); if(u->get() != n || val(*n) != 2) bad("unique_ptr.reset:value", "reset(p) does not leave p in the owner", h); if(second == 2) u->reset(nullptr); }
+			Closer::armed = false;
+			raise_pending();
+			if((second == 1) != bool(*u)) bad("unique_ptr:engaged", "null-ness after reset differs from the reference", h);
+			u->~U();
+			raise_pending();
+			world_check_empty("unique_ptr(re-entrant element)");
+			r.evaluations++; r.distinct++;
+		} catch(const Violation &v) { r.add_violation(v, h); }
+		catch(const Panic &p) { bad("panic:unique_ptr.reset", p.text, h); }
+		Closer::armed = false;
+	}
+	r.samples.push_back("unique_ptr<Closer>: reset(nullptr) / reset(new) / both, element destructor clears its owner if the owner still designates it");
+	return r;
+}
+
 static std::vector<Instance> instances(const std::string &) {
 	std::vector<Instance> v;
 	v.push_back(bfs_instance<UpHarness>("unique_ptr", BfsOptions{}));
 	v.push_back(bfs_instance<UmHarness>("unique_memory", BfsOptions{}));
 	v.push_back(bfs_instance<CdHarness>("construct-destruct", BfsOptions{}));
+	Instance re; re.name = "unique_ptr-reentrant-element";
+	re.run = [](const std::vector<CrashInfo> &) { return reentrant_element(); };
+	re.replay = [](const std::string &) { InstResult r = reentrant_element(); for(auto &v : r.violations) printf("REPLAY-VIOLATION property=%s sig=%s: %s\n", v.prop.c_str(), v.sig.c_str(), v.msg.c_str()); return (int)r.violations.size(); };
+	v.push_back(re);
 	return v;
 }
 int main(int argc, char **argv) { return harness_main(argc, argv, instances); }
